@@ -146,6 +146,17 @@ CLAIMED['C06'] = dict(
     technique='TLA+ integer loop model + TLC enumeration; spec->code replay of every configuration',
     design_ref='3/C06')
 
+CLAIMED['C07'] = dict(
+    text=('LiftDiff.tla: routing of variable collections through nn.vjp / nn.jvp / nn.value_and_grad / nn.grad / nn.custom_vjp for an exact '
+          'integer polynomial body with a forward-pass state update and an optional rng draw: which collections and inputs receive a '
+          'cotangent / tangent and its integer value, nothing for unselected collections, state published exactly once, tangent of a '
+          'mutable state collection, custom backward rule applied to grad_vars and inputs (also for a parameter-free module). Every '
+          'configuration is run with the real transforms inside a parent module and compared with the specification and with jax.vjp of the '
+          'pure apply function; the rng draw must be the key the plain call sees. Gradient values are decided by exact integer arithmetic '
+          'and the JAX oracle named by the property; TLC decides structure, selection and side-effect multiplicity.'),
+    technique='TLA+ routing model + TLC enumeration; spec->code replay with jax autodiff of the pure function as second oracle',
+    design_ref='3/C07')
+
 NOT_YET = 'check not built yet in this round (planned, see DESIGN.md section 3); not claimed until its specification is bound to the code'
 ALL = ['C%02d' % i for i in range(1, 21)]
 
